@@ -17,7 +17,9 @@
 (*                                              body of a class statement, the load of an      *)
 (*                                              imported module) and continues if that returns *)
 (*         [k |-> "try", body, h, hline, exc]   try: body / except Exception as e: with handler *)
-(*                                              h = "reraise" (bare raise) | "from" (raise exc  *)
+(*                                              h = "reraise" (bare raise) | "none" (raise exc  *)
+(*                                              from None: nothing of the caught exception is  *)
+(*                                              printed) | "from" (raise exc                   *)
 (*                                              from e) | "ctx" (raise exc)                     *)
 (*   line  the line Python reports for the statement (generator's belief, checked against      *)
 (*         CPython itself)                                                                    *)
@@ -49,6 +51,7 @@ ExecBody(P, u, body, i) ==
            LET r == ExecBody(P, u, st.body, 1) IN
            IF r.k = "ok" THEN ExecBody(P, u, body, i + 1)
            ELSE IF st.h = "reraise" THEN r
+           ELSE IF st.h = "none" THEN Raised(st.exc, <<Frame(u, st.hline)>>, <<>>)      \* raise exc from None: __suppress_context__
            ELSE Raised(st.exc, <<Frame(u, st.hline)>>,
                        r.chain \o <<[rel |-> IF st.h = "from" THEN "cause" ELSE "context", exc |-> r.exc, frames |-> r.tb]>>)
 
